@@ -64,6 +64,10 @@ class Gen:
 
     def cond(self, defined, depth=0):
         r = self.r
+        if r.random() < 0.1:
+            # truth of the packed parameters (*args tuple, **kwargs dict): length comparisons and the bare name are interchangeable there
+            return r.choice(["len(args) > 0", "len(args) >= 1", "len(args) != 0", "args", "not args", "len(args) == 0", "len(args) < 1", "len(args)",
+                             "not len(args)", "len(kwargs) > 0", "kwargs", "not kwargs", "len(kwargs) == 0", "len(args) > 1", "'k' in kwargs"])
         k = r.random()
         if k < 0.12 and depth < 2:
             return f"not {self.cond(defined, depth + 1)} or not {self.cond(defined, depth + 1)}"
@@ -83,6 +87,31 @@ class Gen:
         out = []
         defined = set(defined)
         for _ in range(r.randint(1, 5)):
+            if r.random() < 0.06:
+                # packed parameters: value uses of their length, a tuple-preserving rebinding, look-up-then-pop, and rebindings that
+                # take the name out of the rule's reach (the canonical form must then leave its tests alone)
+                k = r.random()
+                v = self.fresh()
+                key = r.choice(["'k'", "'k'", "'m'", "'z'"])
+                if k < 0.2:
+                    out.append(f"{v} = {r.choice(['len(args)', '(len(args) > 0) + 0', '(len(args) == 0) * 2', 'len(kwargs)', 'sum(args)'])}")
+                    defined.add(v)
+                elif k < 0.35:
+                    out.append(r.choice(["args = args[1:]", "args = args[:1]", "args = args[1:2]"]))
+                elif k < 0.75:
+                    out.append(f"{v} = kwargs[{key}]")
+                    if r.random() < 0.15:
+                        out.append(f"eff({v})")
+                    out.append(f"kwargs.pop({key if r.random() < 0.85 else chr(39) + 'm' + chr(39)})")
+                    defined.add(v)
+                elif k < 0.85:
+                    out.append(f"{v} = kwargs.pop({key})")
+                    defined.add(v)
+                elif k < 0.9:
+                    out.append(r.choice(["args = np.ident(Weird())", "kwargs = Weird()", "args = [0] * len(args)", "args = args[0]"]))
+                else:
+                    out.append(r.choice(["keep.append(kwargs)", "keep.append(sorted(kwargs.items()))", "keep.append(args)"]))
+                continue
             c = r.random()
             ind = ""
             if c < 0.32:
@@ -231,7 +260,7 @@ class Gen:
             body.insert(2, f"eff({v})")
         if self.r.random() < 0.7:
             body.append("return " + self.expr({"a", "b"}))
-        return f"def {name}(self, a: int, b, lst, keep):\n" + "\n".join("    " + ln for ln in body) + "\n"
+        return f"def {name}(self, a: int, b, lst, keep, *args, **kwargs):\n" + "\n".join("    " + ln for ln in body) + "\n"
 
     def program(self):
         """(helper sources, main source): helpers are new module-level functions or closures the main function calls"""
@@ -262,6 +291,31 @@ class Obj:
         return self.p
 
 
+class Weird:
+    """an object whose length and truth disagree (what a rebound `args` could hold)"""
+
+    def __repr__(self):
+        return "Weird"
+
+    def __len__(self):
+        return 0
+
+    def __bool__(self):
+        return True
+
+    def __getitem__(self, k):
+        return self
+
+    def pop(self, k):
+        return 0
+
+    def items(self):
+        return []
+
+    def __iter__(self):
+        return iter(())
+
+
 class NP:
     @staticmethod
     def sq(x):
@@ -281,10 +335,12 @@ def run(src, a, b, p, q, prelude=""):
     def eff(x):
         log.append(("eff", repr(x), o.p, repr(lst)))
         return x + 1
-    env = {"np": NP, "eff": eff, "tbl": {0: 1, 1: 5, 2: 2}}
+    env = {"np": NP, "eff": eff, "tbl": {0: 1, 1: 5, 2: 2}, "Weird": Weird}
+    extra = (a, 2, b)[:abs(a + p) % 4]
+    kw = [{}, {"k": q}, {"k": a, "m": 3}, {"m": b}][abs(b + q) % 4]
     exec(compile(prelude + src, "<prog>", "exec"), env)
     try:
-        res = ("ret", env["f"](o, a, b, lst, keep))
+        res = ("ret", env["f"](o, a, b, lst, keep, *extra, **kw))
     except RecursionError:
         raise
     except Exception as e:      # noqa
